@@ -829,6 +829,9 @@ func execStringsPadding(fn parser.Function, args []value.Primary, direction Dire
 	}
 
 	padLen := length - strLen
+	if math.MaxInt32 < padLen {
+		return nil, NewFunctionInvalidArgumentError(fn, fn.Name, "length is too large")
+	}
 	repeat := int(math.Ceil(float64(padLen) / float64(padstrLen)))
 	padding := strings.Repeat(padstr, repeat)
 	switch padType {
@@ -1047,9 +1050,10 @@ func substr(fn parser.Function, args []value.Primary, zeroBasedIndex bool) (valu
 		if sublen < 0 {
 			return value.NewNull(), nil
 		}
-		end = start + sublen
-		if strlen < end {
+		if strlen-start < sublen {
 			end = strlen
+		} else {
+			end = start + sublen
 		}
 	}
 
